@@ -21,6 +21,7 @@
 //!          C04_ONLY=x2|corpus|blobs restricts the sources and marks the run non-exhaustive.
 
 mod domain;
+mod packed;
 mod tde;
 mod vser;
 
@@ -69,6 +70,10 @@ pub trait Reader<T>: 'static {
     /// is checked against what the adaptor supplies
     fn root_args(_like: &T) -> Vec<i128> {
         vec![]
+    }
+    /// the type's own `compute_size()` where it has a public one: must equal the compiled length
+    fn expected_size(_v: &T) -> Option<usize> {
+        None
     }
 }
 pub struct Plain;
@@ -254,6 +259,42 @@ mod adapt {
             read_fonts::tables::gpos::BaseArray::read(FontData::new(b), n).map(|t| t.to_owned_table())
         }
     }
+    /// TupleVariationHeader / Tuple: axisCount = length of whichever coordinate array is present
+    pub struct TupleVariationHeaderR;
+    impl Reader<wt::variations::TupleVariationHeader> for TupleVariationHeaderR {
+        fn root_args(v: &wt::variations::TupleVariationHeader) -> Vec<i128> {
+            let n = if !v.peak_tuple.is_empty() {
+                v.peak_tuple.len()
+            } else if !v.intermediate_start_tuple.is_empty() {
+                v.intermediate_start_tuple.len()
+            } else {
+                v.intermediate_end_tuple.len()
+            };
+            vec![n as i128]
+        }
+        fn expected_size(v: &wt::variations::TupleVariationHeader) -> Option<usize> {
+            Some(v.compute_size() as usize)
+        }
+        fn read(
+            b: &[u8],
+            like: Option<&wt::variations::TupleVariationHeader>,
+            _: Option<&FontArgs>,
+        ) -> Result<wt::variations::TupleVariationHeader, ReadError> {
+            let n = need(like.map(|v| Self::root_args(v)[0] as u16))?;
+            read_fonts::tables::variations::TupleVariationHeader::read(FontData::new(b), n).map(|t| t.to_owned_table())
+        }
+    }
+    pub struct TupleR;
+    impl Reader<wt::variations::Tuple> for TupleR {
+        fn root_args(v: &wt::variations::Tuple) -> Vec<i128> {
+            vec![v.values.len() as i128]
+        }
+        fn read(b: &[u8], like: Option<&wt::variations::Tuple>, _: Option<&FontArgs>) -> Result<wt::variations::Tuple, ReadError> {
+            use write_fonts::from_obj::ToOwnedObj;
+            let n = need(like.map(|v| v.values.len() as u16))?;
+            read_fonts::tables::variations::Tuple::read(FontData::new(b), n).map(|t| t.to_owned_obj(FontData::new(b)))
+        }
+    }
     pub struct Mark2ArrayR;
     impl Reader<wt::gpos::Mark2Array> for Mark2ArrayR {
         fn root_args(v: &wt::gpos::Mark2Array) -> Vec<i128> {
@@ -279,6 +320,8 @@ fn adaptors() -> Vec<TypeOps> {
         ops_with::<wt::sbix::Strike, adapt::StrikeR>("sbix", "Strike", None, "value: glyph_data_offsets.len - 1"),
         ops_with::<wt::gpos::BaseArray, adapt::BaseArrayR>("gpos", "BaseArray", None, "value: base_records[0].base_anchors.len"),
         ops_with::<wt::gpos::Mark2Array, adapt::Mark2ArrayR>("gpos", "Mark2Array", None, "value: mark2_records[0].mark2_anchors.len"),
+        ops_with::<wt::variations::TupleVariationHeader, adapt::TupleVariationHeaderR>("variations", "TupleVariationHeader", None, "value: length of the first non-empty coordinate array; compute_size() compared with the compiled length"),
+        ops_with::<wt::variations::Tuple, adapt::TupleR>("variations", "Tuple", None, "value: values.len"),
     ]
 }
 
@@ -400,6 +443,17 @@ fn strong<T: Owned, R: Reader<T>>(
         }
         Ok(Ok(b)) => b,
     };
+    if let Some(n) = R::expected_size(v) {
+        l.cnt("compute_size_compared");
+        if n != b.len() {
+            ctx.run.violation(
+                &format!("{t} compute_size disagrees with the compiled length"),
+                &format!("compute_size() = {n}, compiled {} bytes{stage}: {}", b.len(), hex(&b[..b.len().min(200)])),
+                case(),
+            );
+            return;
+        }
+    }
     l.trans += 1;
     let v1 = match guard(|| R::read(&b, Some(v), None)) {
         Err(p) => {
@@ -865,6 +919,14 @@ fn body(run: &Run, replay: Option<&Value>) {
             cap_per_type: 1,
             extend_below: 0,
         };
+        if matches!(case["source"].as_str(), Some("packed_points") | Some("packed_deltas")) {
+            let mut l = Local::default();
+            packed::replay(run, case, &mut l);
+            for (k, v) in &l.counters {
+                println!("  {k} = {v}");
+            }
+            return;
+        }
         let ty = case["type"].as_str().unwrap_or("");
         let Some(ops) = reg.iter().find(|o| o.full() == ty) else {
             println!("replay: unknown type {ty}");
@@ -1091,6 +1153,12 @@ fn body(run: &Run, replay: Option<&Value>) {
         total.lock().unwrap().merge(l);
     });
     run.extra("test_data_blobs_without_a_name_matched_readable_type", json!(*unmatched.lock().unwrap()));
+
+    // ---- source 3: hand-written packed point numbers / packed deltas, structured families ----------
+    if want("packed") {
+        let l = packed::run_families(run);
+        total.lock().unwrap().merge(l);
+    }
 
     // ---- evidence ---------------------------------------------------------------------------
     let l = std::mem::take(&mut *total.lock().unwrap());
